@@ -65,7 +65,9 @@ Conforms(nd, e) ==
   /\ Enabled(K, st, ReqOf(e[2]))
   /\ o.resp = RespOf(e[3])
   /\ e[1] >= 0 => o.st = StOf(Nodes[e[1] + 1])
-Divergent == EdgesWhere(LAMBDA nd, e : IsView(ViewsJ[nd.v + 1]) /\ e[1] # -2 /\ ~Conforms(nd, e))
+\* (a refused request - the tracker returned an error, e.g. a compact-filter false positive on removal
+\*  that a front end cannot deliver - is listed under `refused`, not as a divergence)
+Divergent == EdgesWhere(LAMBDA nd, e : IsView(ViewsJ[nd.v + 1]) /\ e[1] # -2 /\ e[3] # 0 /\ ~Conforms(nd, e))
 FreshDivergent == {i \in DOMAIN Nodes :
                      LET r == Replay(K, ChainOf(Nodes[i]), Mode) IN
                      ~(ValidChain(K, ChainOf(Nodes[i])) /\ r.ok /\ IsView(ViewsJ[Nodes[i].f + 1]) /\ r.s = V(Nodes[i].f))}
